@@ -1124,6 +1124,17 @@ func selectReverseStrategy(n *nfa.NFA, re *syntax.Regexp, literals *literal.Seq,
 			if !isSafeForReverseInner(re) {
 				return 0 // Fall through to other strategies
 			}
+			// The prefix part is verified by a REVERSE DFA, and nfa.Reverse turns look
+			// assertions into plain epsilons: `.*^@.*` would be searched as `.*@.*`.
+			// Patterns with ^, \A, (?m)^ or $ before the inner literal are not supported.
+			if containsAnchor(innerInfo.PrefixAST) {
+				return 0
+			}
+			// The prefix/suffix/full DFAs report the longest continuation, which is not
+			// what lazy quantifiers (`.*?@.*?`, (?U)) ask for - same rule as bidirectional DFA.
+			if hasNonGreedyQuantifier(re) {
+				return 0
+			}
 			return UseReverseInner // Inner literal available - use ReverseInner
 		}
 	}
